@@ -1,27 +1,1323 @@
-//! C20 — not built yet (stub so that the binary links; `./check C20` reports INFRA until replaced).
+//! C20 — driver contract of the real `sylt` binary: exit status, all-or-nothing output, flags.
+//!
+//! A case is a configuration tuple (program class x output mode x `--require` x `--no-std` x argument
+//! order/spelling). The real binary is started on a materialised project in a private temp dir; the oracle
+//! is differential against the library (`vcore::compile_fs` on the very same files) plus the file-system /
+//! stdout contract the property states. See `rule()` for the clause list.
 use arbitrary::Unstructured;
-use vcore::{Check, Labels, Plan, Tier, Verdict};
+use serde::{Deserialize, Serialize};
+use std::collections::BTreeMap;
+use std::path::{Path, PathBuf};
+use std::sync::atomic::{AtomicU64, Ordering};
+use std::sync::OnceLock;
+use std::time::{Duration, Instant};
+use vcore::luarun::{run_lua, LuaOutcome, Terminal};
+use vcore::{compile_fs, Check, Labels, Outcome, Project, Stats, Step, Tape, Tier, Verdict};
 
-pub struct Stub;
-pub const CHECK: Stub = Stub;
-pub fn plan(_t: Tier) -> Plan {
-    Plan::new(1, 16)
+pub struct C20;
+pub const CHECK: C20 = C20;
+pub fn plan(t: Tier) -> vcore::Plan {
+    // a case costs 1-4 process runs (a few ms each); small chunks so that all workers share the work
+    let mut p = vcore::Plan::new(t.pick(2_400, 60_000), 160);
+    p.chunk = t.pick(50, 500);
+    // the per-invocation timeout (20 s => discard) must fire before the engine's per-case watchdog
+    p.case_timeout_s = 150;
+    p
 }
-impl Check for Stub {
-    type Case = u8;
+
+const DEFAULT_SYLT_BIN: &str = "/verif/harness/target/repo-bin/release/sylt";
+const DEFAULT_LUA_DIR: &str = "/verif/harness/target/release";
+const PROC_TIMEOUT: Duration = Duration::from_secs(20);
+const LUA_STEPS: u64 = 5_000_000;
+const PREVIOUS: &str = "-- previous content of the output file (C20 sentinel)\n";
+
+#[derive(Clone, Copy, Debug, PartialEq, Eq, Serialize, Deserialize)]
+pub enum Mode {
+    /// `-o FILE`, FILE does not exist (its directory does)
+    OutNew,
+    /// `-o -`
+    Stdout,
+    /// no `-o`: compile and pipe into `lua`
+    Run,
+    /// `-o FILE`, FILE exists with other content
+    OutExisting,
+    /// `-o DIR/x.lua` where DIR does not exist
+    OutMissingDir,
+    /// `-o F/x.lua` where F is a regular file
+    OutParentIsFile,
+    /// `-o DIR` where DIR is an existing directory
+    OutIsDir,
+}
+impl Mode {
+    fn name(self) -> &'static str {
+        match self {
+            Mode::OutNew => "file-new",
+            Mode::Stdout => "stdout",
+            Mode::Run => "run",
+            Mode::OutExisting => "file-existing",
+            Mode::OutMissingDir => "unwritable-missing-dir",
+            Mode::OutParentIsFile => "unwritable-parent-is-file",
+            Mode::OutIsDir => "unwritable-is-directory",
+        }
+    }
+    fn kind(self) -> &'static str {
+        match self {
+            Mode::OutNew | Mode::OutExisting => "file",
+            Mode::Stdout => "stdout",
+            Mode::Run => "run",
+            _ => "unwritable",
+        }
+    }
+    fn unwritable(self) -> bool {
+        self.kind() == "unwritable"
+    }
+}
+
+#[derive(Clone, Debug, Serialize, Deserialize)]
+pub struct Case {
+    /// "/p/main.sy" (+ optionally "/p/aux.sy")
+    pub files: BTreeMap<String, String>,
+    /// what the generator meant to build: "accepted" | "rejected" | "runtime" (a hint for labels, health and
+    /// shrinking; the oracle takes the truth from the library)
+    pub class: String,
+    /// false = by construction only `<=>`, `<!>`, arithmetic, control flow, own functions
+    pub uses_std: bool,
+    pub mode: Mode,
+    pub require: Option<String>,
+    pub no_std: bool,
+    /// 0 = flags before the file, 1 = flags after the file, 2 = first flag before, the rest after
+    pub order: u8,
+    /// `--output/--require` instead of `-o/-r`
+    pub long_flags: bool,
+    /// Mode::OutExisting: previous content is longer than any output (64 KiB) instead of one line
+    pub prev_big: bool,
+    /// the `-o` path is given relative to the working directory
+    #[serde(default)]
+    pub rel_out: bool,
+}
+
+// ------------------------------------------------------------------------------------------------
+// program generator (templates; tiny programs — no closures, at most 3 function literals)
+// ------------------------------------------------------------------------------------------------
+
+struct Var {
+    name: String,
+    val: i64,
+    mutable: bool,
+}
+
+struct Builder {
+    helpers: Vec<(String, i64)>, // (name, K): h(a) = a + K
+    aux: Option<(i64, i64)>,     // k0 = A, hk(a) = a * B
+    vars: Vec<Var>,
+    body: Vec<String>,
+    helper_extra: Vec<Vec<String>>, // planted lines per helper (before its `ret`)
+    aux_extra: Vec<String>,
+    counter: usize,
+    used_std: bool,
+}
+
+impl Builder {
+    fn fresh(&mut self, p: &str) -> String {
+        self.counter += 1;
+        format!("{}{}", p, self.counter)
+    }
+    fn int_expr(&mut self, t: &mut Tape) -> (String, i64) {
+        match t.below(5) {
+            0 => {
+                let a = t.range(0, 9);
+                (format!("{}", a), a)
+            }
+            1 => {
+                let (a, b) = (t.range(0, 20), t.range(0, 20));
+                (format!("{} + {}", a, b), a + b)
+            }
+            2 => {
+                let (a, b) = (t.range(0, 9), t.range(0, 9));
+                (format!("{} * {}", a, b), a * b)
+            }
+            3 if !self.vars.is_empty() => {
+                let i = t.below(self.vars.len());
+                let b = t.range(0, 9);
+                (format!("{} - {}", self.vars[i].name, b), self.vars[i].val - b)
+            }
+            _ if !self.helpers.is_empty() => {
+                let i = t.below(self.helpers.len());
+                let a = t.range(0, 9);
+                (format!("{}({})", self.helpers[i].0, a), a + self.helpers[i].1)
+            }
+            _ => {
+                let (a, b) = (t.range(1, 9), t.range(1, 9));
+                (format!("({} + {}) * 2", a, b), (a + b) * 2)
+            }
+        }
+    }
+    fn stmt(&mut self, t: &mut Tape, allow_std: bool) {
+        let n = if allow_std { 11 } else { 8 };
+        match t.below(n) {
+            0 => {
+                let (e, v) = self.int_expr(t);
+                let name = self.fresh("x");
+                self.body.push(format!("    {} := {}", name, e));
+                self.vars.push(Var { name, val: v, mutable: true });
+            }
+            1 => {
+                let (e, v) = self.int_expr(t);
+                self.body.push(format!("    {} <=> {}", e, v));
+            }
+            2 => {
+                let (e, v) = self.int_expr(t);
+                let name = self.fresh("c");
+                self.body.push(format!("    {} :: {}", name, e));
+                self.vars.push(Var { name, val: v, mutable: false });
+            }
+            3 => {
+                let muts: Vec<usize> = (0..self.vars.len()).filter(|i| self.vars[*i].mutable).collect();
+                if muts.is_empty() {
+                    self.body.push("    if 1 < 2 do\n        1 <=> 1\n    end".into());
+                } else {
+                    let i = muts[t.below(muts.len())];
+                    let c = t.range(0, 20);
+                    let name = self.vars[i].name.clone();
+                    self.body.push(format!("    if {} < {} do\n        {} = {} + 1\n    end", name, c, name, name));
+                    if self.vars[i].val < c {
+                        self.vars[i].val += 1;
+                    }
+                }
+            }
+            4 => {
+                let name = self.fresh("i");
+                let m = t.range(0, 4);
+                self.body.push(format!("    {} := 0\n    loop {} < {} do\n        {} += 1\n    end\n    {} <=> {}", name, name, m, name, name, m));
+                self.vars.push(Var { name, val: m, mutable: true });
+            }
+            5 => {
+                let alts = [
+                    "    (1, 2) <=> (1, 2)",
+                    "    1.5 * 2.0 <=> 3.0",
+                    "    \"ab\" + \"cd\" <=> \"abcd\"",
+                    "    (1 < 2) <=> true",
+                    "    (not false) <=> true",
+                ];
+                self.body.push(t.pick(&alts).to_string());
+            }
+            6 => {
+                if let Some((a, b)) = self.aux {
+                    if t.bool() {
+                        self.body.push(format!("    aux.k0 <=> {}", a));
+                    } else {
+                        let x = t.range(0, 9);
+                        self.body.push(format!("    aux.hk({}) <=> {}", x, x * b));
+                    }
+                } else {
+                    let (e, v) = self.int_expr(t);
+                    self.body.push(format!("    ({}) <=> {}", e, v));
+                }
+            }
+            7 => {
+                if let Some(v) = self.vars.last() {
+                    self.body.push(format!("    {} <=> {}", v.name, v.val));
+                } else {
+                    self.body.push("    2 <=> 1 + 1".into());
+                }
+            }
+            8 => {
+                let (e, _) = self.int_expr(t);
+                self.body.push(format!("    print({})", e));
+                self.used_std = true;
+            }
+            9 => {
+                let k = t.range(0, 99);
+                self.body.push(format!("    print(\"text{}\")", k));
+                self.used_std = true;
+            }
+            _ => {
+                let k = t.range(0, 99);
+                self.body.push(format!("    as_str({}) <=> \"{}\"", k, k));
+                self.used_std = true;
+            }
+        }
+    }
+
+    fn render(&self) -> BTreeMap<String, String> {
+        let mut main = String::new();
+        if self.aux.is_some() {
+            main.push_str("use aux\n");
+        }
+        for (i, (name, k)) in self.helpers.iter().enumerate() {
+            main.push_str(&format!("{} :: fn a: int -> int do\n", name));
+            for l in &self.helper_extra[i] {
+                main.push_str(l);
+                main.push('\n');
+            }
+            main.push_str(&format!("    ret a + {}\nend\n", k));
+        }
+        main.push_str("start :: fn do\n");
+        for l in &self.body {
+            main.push_str(l);
+            main.push('\n');
+        }
+        main.push_str("end\n");
+        let mut files = BTreeMap::new();
+        files.insert("/p/main.sy".to_string(), main);
+        if let Some((a, b)) = self.aux {
+            let mut s = format!("k0 :: {}\nhk :: fn a: int -> int do\n    ret a * {}\nend\n", a, b);
+            for l in &self.aux_extra {
+                s.push_str(l);
+                s.push('\n');
+            }
+            files.insert("/p/aux.sy".to_string(), s);
+        }
+        files
+    }
+}
+
+fn minimal_program(class: &str, uses_std: bool) -> String {
+    match (class, uses_std) {
+        ("rejected", _) => "start :: fn do\n    q := 1 +\nend\n".into(),
+        ("runtime", false) => "start :: fn do\n    1 <=> 2\nend\n".into(),
+        ("runtime", true) => "start :: fn do\n    print(1)\n    1 <=> 2\nend\n".into(),
+        (_, false) => "start :: fn do\n    1 <=> 1\nend\n".into(),
+        (_, true) => "start :: fn do\n    print(1)\nend\n".into(),
+    }
+}
+
+fn gen_program(t: &mut Tape, class: &str, uses_std: bool) -> BTreeMap<String, String> {
+    let mut b = Builder {
+        helpers: Vec::new(),
+        aux: None,
+        vars: Vec::new(),
+        body: Vec::new(),
+        helper_extra: Vec::new(),
+        aux_extra: Vec::new(),
+        counter: 0,
+        used_std: false,
+    };
+    let nh = t.below(3);
+    for i in 0..nh {
+        b.helpers.push((format!("h{}", i), t.range(0, 9)));
+        b.helper_extra.push(Vec::new());
+    }
+    if t.chance(1, 5) {
+        b.aux = Some((t.range(1, 9), t.range(1, 9)));
+    }
+    let n = 1 + t.below(5);
+    for _ in 0..n {
+        b.stmt(t, uses_std);
+    }
+    if uses_std && !b.used_std {
+        b.body.push("    print(1)".into());
+    }
+    // a long string literal now and then (buffering / partial-write paths of `-o -` and `-o FILE`)
+    if t.chance(1, 16) {
+        let len = if t.bool() { 70_000 } else { 2_000 };
+        b.body.push(format!("    big :: \"{}\"\n    big <=> big", "a".repeat(len)));
+    }
+    match class {
+        "runtime" => {
+            let pos = t.below(b.body.len() + 1);
+            let failing = match t.below(6) {
+                0 => {
+                    let a = t.range(0, 9);
+                    format!("    {} <=> {}", a, a + 1)
+                }
+                1 => "    <!>".to_string(),
+                2 => "    if 1 < 2 do\n        <!>\n    end".to_string(),
+                3 => {
+                    let a = t.range(0, 9);
+                    format!("    if {} < 10 do\n        {} <=> {}\n    end", a, a, a + 2)
+                }
+                4 if !b.helpers.is_empty() => {
+                    let i = t.below(b.helpers.len());
+                    let a = t.range(0, 9);
+                    format!("    {}({}) <=> {}", b.helpers[i].0, a, a + b.helpers[i].1 + 1)
+                }
+                4 => "    \"a\" <=> \"b\"".to_string(),
+                _ if !b.helpers.is_empty() => {
+                    // the failure sits inside a helper; make sure it is called
+                    let i = t.below(b.helpers.len());
+                    b.helper_extra[i].push(if t.bool() { "    a <=> a + 1".into() } else { "    <!>".into() });
+                    format!("    {}(1)", b.helpers[i].0)
+                }
+                _ => "    (1, 2) <=> (2, 1)".to_string(),
+            };
+            b.body.insert(pos, failing);
+        }
+        "rejected" => {
+            let k = 1 + t.below(3);
+            for _ in 0..k {
+                let q = b.fresh("q");
+                let line = match t.below(3) {
+                    0 => match t.below(4) {
+                        0 => format!("    {} := 1 +", q),
+                        1 => format!("    {} := 1 1", q),
+                        2 => "    ret )".to_string(),
+                        _ => format!("    {} := 2 2 2", q),
+                    },
+                    1 => match t.below(3) {
+                        0 => format!("    {} := nope{} + 1", q, b.counter),
+                        1 => format!("    nofn{}(1)", b.counter),
+                        _ => format!("    nope{} = 1", b.counter),
+                    },
+                    _ => match t.below(4) {
+                        0 => format!("    {}: int = \"s\"", q),
+                        1 => format!("    {} := 1 + \"a\"", q),
+                        2 => format!("    {}: str = 1", q),
+                        _ => format!("    {} :: 1\n    {} = 2", q, q),
+                    },
+                };
+                // where: start body, a helper body, or the aux file
+                let places = 1 + b.helpers.len() + if b.aux.is_some() { 1 } else { 0 };
+                let w = t.below(places);
+                if w == 0 {
+                    let pos = t.below(b.body.len() + 1);
+                    b.body.insert(pos, line);
+                } else if w <= b.helpers.len() {
+                    b.helper_extra[w - 1].push(line);
+                } else {
+                    // top level of the aux file: only forms that are legal statements there
+                    let l = line.trim_start().to_string();
+                    let l = if l.starts_with("ret") || l.starts_with("nofn") || l.starts_with("nope") { format!("{} := 1 1", q) } else { l };
+                    b.aux_extra.push(l.replace("\n    ", "\n"));
+                }
+            }
+        }
+        _ => {}
+    }
+    b.render()
+}
+
+const REQUIRE_NAMES: &[&str] = &["extmod", "my_lib", "sub.mod"];
+
+// ------------------------------------------------------------------------------------------------
+// environment (binaries, preamble)
+// ------------------------------------------------------------------------------------------------
+
+struct Env {
+    sylt: PathBuf,
+    path_var: std::ffi::OsString,
+    preamble: Vec<u8>,
+}
+
+fn env() -> &'static Result<Env, String> {
+    static E: OnceLock<Result<Env, String>> = OnceLock::new();
+    E.get_or_init(|| {
+        let sylt = PathBuf::from(std::env::var("SYLT_BIN").unwrap_or_else(|_| DEFAULT_SYLT_BIN.to_string()));
+        if !sylt.is_file() {
+            return Err("infra:sylt-binary-missing".into());
+        }
+        let lua_dir = PathBuf::from(std::env::var("SYLT_LUA_DIR").unwrap_or_else(|_| DEFAULT_LUA_DIR.to_string()));
+        if !lua_dir.join("lua").is_file() {
+            return Err("infra:lua-binary-missing".into());
+        }
+        let mut path_var = std::ffi::OsString::from(&lua_dir);
+        if let Some(p) = std::env::var_os("PATH") {
+            path_var.push(":");
+            path_var.push(p);
+        }
+        let repo = std::env::var("SYLT_REPO").unwrap_or_else(|_| "/repo".to_string());
+        let preamble = match std::fs::read(Path::new(&repo).join("sylt-compiler/src/preamble.lua")) {
+            Ok(b) => b,
+            Err(_) => return Err("infra:preamble-unreadable".into()),
+        };
+        Ok(Env { sylt, path_var, preamble })
+    })
+}
+
+struct RunOut {
+    /// None = killed by a signal
+    code: Option<i32>,
+    stdout: Vec<u8>,
+    stderr: Vec<u8>,
+}
+impl RunOut {
+    fn ok(&self) -> bool {
+        self.code == Some(0)
+    }
+    fn status(&self) -> String {
+        match self.code {
+            Some(c) => format!("exit status {}", c),
+            None => "killed by a signal".into(),
+        }
+    }
+}
+
+/// Err(()) = timeout
+fn run_sylt(e: &Env, cwd: &Path, args: &[String], labels: &mut Labels) -> Result<RunOut, ()> {
+    use std::io::Read;
+    use std::process::{Command, Stdio};
+    labels.add("process-runs");
+    let mut child = match Command::new(&e.sylt)
+        .args(args)
+        .current_dir(cwd)
+        .env("NO_COLOR", "1")
+        .env("CLICOLOR", "0")
+        .env_remove("CLICOLOR_FORCE")
+        .env("RUST_BACKTRACE", "0")
+        .env("PATH", &e.path_var)
+        .stdin(Stdio::null())
+        .stdout(Stdio::piped())
+        .stderr(Stdio::piped())
+        .spawn()
+    {
+        Ok(c) => c,
+        Err(_) => return Err(()),
+    };
+    let (tx_o, rx_o) = std::sync::mpsc::channel();
+    let (tx_e, rx_e) = std::sync::mpsc::channel();
+    let mut so = child.stdout.take().unwrap();
+    let mut se = child.stderr.take().unwrap();
+    std::thread::spawn(move || {
+        let mut b = Vec::new();
+        let _ = so.read_to_end(&mut b);
+        let _ = tx_o.send(b);
+    });
+    std::thread::spawn(move || {
+        let mut b = Vec::new();
+        let _ = se.read_to_end(&mut b);
+        let _ = tx_e.send(b);
+    });
+    let t0 = Instant::now();
+    let status = loop {
+        match child.try_wait() {
+            Ok(Some(st)) => break st,
+            Ok(None) => {
+                if t0.elapsed() > PROC_TIMEOUT {
+                    let _ = child.kill();
+                    let _ = child.wait();
+                    return Err(());
+                }
+                std::thread::sleep(Duration::from_micros(500));
+            }
+            Err(_) => return Err(()),
+        }
+    };
+    // an orphaned `lua` (the driver does not wait for it when compilation fails) may still hold the pipes
+    let left = PROC_TIMEOUT.saturating_sub(t0.elapsed()).max(Duration::from_secs(2));
+    let stdout = rx_o.recv_timeout(left).map_err(|_| ())?;
+    let stderr = rx_e.recv_timeout(left).map_err(|_| ())?;
+    Ok(RunOut { code: status.code(), stdout, stderr })
+}
+
+fn build_args(main: &str, out: Option<&str>, require: Option<&str>, no_std: bool, order: u8, long: bool) -> Vec<String> {
+    let mut groups: Vec<Vec<String>> = Vec::new();
+    if let Some(o) = out {
+        groups.push(vec![if long { "--output" } else { "-o" }.to_string(), o.to_string()]);
+    }
+    if let Some(r) = require {
+        groups.push(vec![if long { "--require" } else { "-r" }.to_string(), r.to_string()]);
+    }
+    if no_std {
+        groups.push(vec!["--no-std".to_string()]);
+    }
+    let split = match order {
+        0 => groups.len(),
+        1 => 0,
+        _ => groups.len().min(1),
+    };
+    let mut args: Vec<String> = Vec::new();
+    for g in &groups[..split] {
+        args.extend(g.iter().cloned());
+    }
+    args.push(main.to_string());
+    for g in &groups[split..] {
+        args.extend(g.iter().cloned());
+    }
+    args
+}
+
+fn cut(s: &str, n: usize) -> String {
+    if s.len() <= n {
+        return s.to_string();
+    }
+    let mut end = n;
+    while !s.is_char_boundary(end) {
+        end -= 1;
+    }
+    format!("{}…[+{} bytes]", &s[..end], s.len() - end)
+}
+
+fn count(hay: &[u8], needle: &[u8]) -> usize {
+    if needle.is_empty() || hay.len() < needle.len() {
+        return 0;
+    }
+    let mut n = 0;
+    let mut i = 0;
+    while i + needle.len() <= hay.len() {
+        if &hay[i..i + needle.len()] == needle {
+            n += 1;
+            i += needle.len();
+        } else {
+            i += 1;
+        }
+    }
+    n
+}
+
+const HEADERS: &[&str] = &["syntax error: ", "typecheck error: ", "compile error: ", "git conflict error: "];
+fn header_lines(s: &str) -> usize {
+    s.lines().filter(|l| HEADERS.iter().any(|h| l.starts_with(h))).count()
+}
+
+/// every needle occurs in `hay`, occurrences pairwise disjoint (any order). Err(i) = needle i is missing.
+fn contains_all(hay: &str, needles: &[&str]) -> Result<(), usize> {
+    let mut h = hay.to_string();
+    let mut idx: Vec<usize> = (0..needles.len()).collect();
+    idx.sort_by_key(|i| std::cmp::Reverse(needles[*i].len()));
+    for i in idx {
+        match h.find(needles[i]) {
+            Some(p) => h.replace_range(p..p + needles[i].len(), "\u{1}"),
+            None => return Err(i),
+        }
+    }
+    Ok(())
+}
+fn in_order(hay: &str, needles: &[&str]) -> bool {
+    let mut from = 0;
+    for n in needles {
+        match hay[from..].find(n) {
+            Some(p) => from += p + n.len(),
+            None => return false,
+        }
+    }
+    true
+}
+
+fn term_name(t: &Terminal) -> String {
+    match t {
+        Terminal::Ok => "ok".into(),
+        Terminal::AssertFailed => "assert-failed".into(),
+        Terminal::Unreachable(n) => format!("unreachable@{}", n),
+        Terminal::LuaError { class, .. } => format!("lua-error:{}", class),
+        Terminal::OutOfBudget(w) => format!("budget:{}", w),
+    }
+}
+
+/// run outcome of emitted Lua as the classes the oracle compares
+enum LuaRes {
+    Term(Terminal, Vec<String>),
+    Load(String),
+}
+fn lua_of(bytes: &[u8]) -> LuaRes {
+    match run_lua(bytes, LUA_STEPS) {
+        LuaOutcome::LoadError { class, msg, .. } => LuaRes::Load(format!("{}: {}", class, msg)),
+        LuaOutcome::Ran(tr) => LuaRes::Term(tr.terminal, tr.lines),
+    }
+}
+fn lua_class(r: &LuaRes) -> String {
+    match r {
+        LuaRes::Load(_) => "load-error".into(),
+        LuaRes::Term(t, _) => term_name(t),
+    }
+}
+
+fn viol(sig: impl Into<String>, case: &Case, what: String) -> Verdict {
+    let mut detail = what;
+    detail.push_str(&format!(
+        "\n--- configuration: mode={} require={:?} no_std={} order={} long_flags={} rel_out={} class={} uses_std={}",
+        case.mode.name(),
+        case.require,
+        case.no_std,
+        case.order,
+        case.long_flags,
+        case.rel_out,
+        case.class,
+        case.uses_std
+    ));
+    for (p, s) in &case.files {
+        detail.push_str(&format!("\n--- {} ---\n{}", p, cut(s, 1500)));
+    }
+    Verdict::Violation { signature: sig.into(), detail }
+}
+
+static COUNTER: AtomicU64 = AtomicU64::new(0);
+
+const STD_MARKERS: &[&str] = &["print", "as_str", "use list", "use math", "list.", "dict.", "set.", "maybe.", "Maybe"];
+
+impl C20 {
+    fn eval_in(&self, case: &Case, labels: &mut Labels, dir: &Path, e: &Env) -> Verdict {
+        macro_rules! run {
+            ($args:expr) => {
+                match run_sylt(e, dir, $args, labels) {
+                    Ok(r) => r,
+                    Err(()) => return Verdict::Discard("timeout".into()),
+                }
+            };
+        }
+        // ---- materialise, library reference ------------------------------------------------------------
+        let project = Project { files: case.files.clone(), main: "/p/main.sy".into(), std: !case.no_std, require: case.require.clone() };
+        let proj = match project.materialize(dir) {
+            Ok(p) => p,
+            Err(_) => return Verdict::Discard("materialize-failed".into()),
+        };
+        let outd = dir.join("out");
+        if std::fs::create_dir_all(&outd).is_err() {
+            return Verdict::Discard("materialize-failed".into());
+        }
+        let lib = compile_fs(&proj);
+        let std_free = !case.uses_std && !case.files.values().any(|s| STD_MARKERS.iter().any(|m| s.contains(m)));
+        labels.add(format!("mode:{}", case.mode.name()));
+        labels.add(format!("hint:{}", case.class));
+        labels.add(if std_free { "std-free" } else { "uses-std" });
+        labels.add(match &case.require {
+            None => "require:none",
+            Some(r) if r.ends_with(".lua") => "require:suffix",
+            Some(_) => "require:plain",
+        });
+        if case.no_std {
+            labels.add("no-std");
+        }
+        labels.add(format!("order:{}", case.order));
+        if case.files.len() > 1 {
+            labels.add("multi-file");
+        }
+        let lib_bytes: Option<&[u8]> = match &lib {
+            Outcome::Panicked { .. } => return Verdict::Discard("library-panicked".into()),
+            Outcome::Accepted(b) => Some(b),
+            Outcome::Rejected { errors, .. } => {
+                if errors.iter().any(|x| x.rendered.is_none()) {
+                    return Verdict::Discard("library-error-does-not-render".into());
+                }
+                labels.add(format!("errors:{}", if errors.len() >= 2 { ">=2" } else { "1" }));
+                labels.add(format!("first-error:{}", errors[0].kind));
+                None
+            }
+        };
+        let lib_run: Option<LuaRes> = lib_bytes.map(lua_of);
+        if let Some(LuaRes::Term(Terminal::OutOfBudget(_), _)) = &lib_run {
+            return Verdict::Discard("lua-budget".into());
+        }
+        let lib_class = match (&lib_bytes, &lib_run) {
+            (None, _) => "rejected",
+            (Some(_), Some(LuaRes::Term(Terminal::Ok, _))) => "accepted-ok",
+            _ => "runtime-fail",
+        };
+        // a `--require`d module never resolves under mini-Lua: keep that apart from failures of the program itself
+        let require_unresolved = case.require.is_some() && matches!(&lib_run, Some(LuaRes::Term(Terminal::LuaError { msg, .. }, _)) if msg.contains("module '"));
+        let label_class = if lib_class == "runtime-fail" && require_unresolved { "accepted-require-unresolvable" } else { lib_class };
+        labels.add(format!("lib:{}", label_class));
+        labels.add(format!("x:{}/{}", label_class, case.mode.kind()));
+        let hint_ok = match case.class.as_str() {
+            "accepted" => lib_class == "accepted-ok" || (case.no_std && !std_free) || (case.require.is_some() && lib_class == "runtime-fail"),
+            "rejected" => lib_class == "rejected",
+            _ => lib_class == "runtime-fail" || (case.no_std && !std_free),
+        };
+        if hint_ok {
+            labels.add("hint-agrees");
+        }
+
+        // ---- output path set-up ------------------------------------------------------------------------
+        let previous: String = if case.prev_big { format!("{}{}", PREVIOUS, "-- filler\n".repeat(6554)) } else { PREVIOUS.to_string() };
+        let blocker = outd.join("blocker");
+        let adir = outd.join("adir");
+        let missing = outd.join("missing");
+        let target: Option<PathBuf> = match case.mode {
+            Mode::Run | Mode::Stdout => None,
+            Mode::OutNew => Some(outd.join("new.lua")),
+            Mode::OutExisting => {
+                let p = outd.join("existing.lua");
+                if std::fs::write(&p, &previous).is_err() {
+                    return Verdict::Discard("materialize-failed".into());
+                }
+                Some(p)
+            }
+            Mode::OutMissingDir => Some(missing.join("x.lua")),
+            Mode::OutParentIsFile => {
+                if std::fs::write(&blocker, PREVIOUS).is_err() {
+                    return Verdict::Discard("materialize-failed".into());
+                }
+                Some(blocker.join("x.lua"))
+            }
+            Mode::OutIsDir => {
+                if std::fs::create_dir_all(&adir).is_err() {
+                    return Verdict::Discard("materialize-failed".into());
+                }
+                Some(adir.clone())
+            }
+        };
+        let out_arg: Option<String> = match case.mode {
+            Mode::Run => None,
+            Mode::Stdout => Some("-".into()),
+            _ => target.as_ref().map(|p| {
+                let rel = if case.rel_out { p.strip_prefix(dir).ok() } else { None };
+                rel.unwrap_or(p.as_path()).to_string_lossy().to_string()
+            }),
+        };
+        if case.rel_out && case.mode.kind() != "run" && case.mode.kind() != "stdout" {
+            labels.add("relative-output-path");
+        }
+        let req = case.require.as_deref();
+        let args = build_args(&proj.main, out_arg.as_deref(), req, case.no_std, case.order, case.long_flags);
+        let cmdline = format!("sylt {}", args.join(" "));
+        let r = run!(&args);
+        let so = String::from_utf8_lossy(&r.stdout).to_string();
+        let se = String::from_utf8_lossy(&r.stderr).to_string();
+        let streams = |r: &RunOut| format!("--- stdout ---\n{}\n--- stderr ---\n{}", cut(&String::from_utf8_lossy(&r.stdout), 1500), cut(&String::from_utf8_lossy(&r.stderr), 800));
+
+        // ---- clause 7 (part): truly unwritable paths stay as they were, whatever the program -------------
+        match case.mode {
+            Mode::OutParentIsFile => {
+                if std::fs::read(&blocker).ok().as_deref() != Some(PREVIOUS.as_bytes()) || !blocker.is_file() {
+                    return viol("C20/unwritable/something-written", case, format!("`{}`: the regular file in the way of the output path was changed", cmdline));
+                }
+            }
+            Mode::OutIsDir => {
+                let empty = std::fs::read_dir(&adir).map(|mut d| d.next().is_none()).unwrap_or(false);
+                if !adir.is_dir() || !empty {
+                    return viol("C20/unwritable/something-written", case, format!("`{}`: the directory given as output file was replaced or something was written into it", cmdline));
+                }
+            }
+            _ => {}
+        }
+
+        // ---- clause 1: exit status ---------------------------------------------------------------------
+        // expected: Some(true) = zero, Some(false) = non-zero, None = either (missing directory: a driver may
+        // legitimately create it; then the complete output must be there)
+        let (expect_zero, failure_kind): (Option<bool>, &str) = match (lib_class, case.mode) {
+            ("rejected", _) => (Some(false), "compile"),
+            (_, Mode::OutParentIsFile) | (_, Mode::OutIsDir) => (Some(false), "unwritable"),
+            (_, Mode::OutMissingDir) => (None, "unwritable"),
+            ("runtime-fail", Mode::Run) => (Some(false), "runtime"),
+            _ => (Some(true), ""),
+        };
+        match expect_zero {
+            Some(false) if r.ok() => {
+                return viol(
+                    format!("C20/exit-status/zero-on-failure/{}", failure_kind),
+                    case,
+                    format!(
+                        "`{}` exited with status 0 although {}\n{}",
+                        cmdline,
+                        match failure_kind {
+                            "compile" => format!("compilation fails ({})", lib.short()),
+                            "runtime" => format!("the program fails at run time ({})", lib_run.as_ref().map(lua_class).unwrap_or_default()),
+                            _ => "the output path cannot be written".to_string(),
+                        },
+                        streams(&r)
+                    ),
+                )
+            }
+            Some(true) if !r.ok() => {
+                return viol(
+                    format!("C20/exit-status/nonzero-on-success/{}", case.mode.kind()),
+                    case,
+                    format!("`{}`: {} although compilation{} succeeds (library: {})\n{}", cmdline, r.status(), if case.mode == Mode::Run { " and execution" } else { "" }, lib.short(), streams(&r)),
+                )
+            }
+            _ => {}
+        }
+
+        // ---- clause 2: every error is printed ----------------------------------------------------------
+        if let Outcome::Rejected { errors, .. } = &lib {
+            let rendered: Vec<&str> = errors.iter().map(|x| x.rendered.as_deref().unwrap_or("")).collect();
+            let both = format!("{}\n{}", so, se);
+            let (stream_name, stream): (&str, &str) = if contains_all(&so, &rendered).is_ok() {
+                ("stdout", &so)
+            } else if contains_all(&se, &rendered).is_ok() {
+                ("stderr", &se)
+            } else {
+                ("stdout+stderr", &both)
+            };
+            if let Err(i) = contains_all(stream, &rendered) {
+                return viol(
+                    format!("C20/errors/missing/{}", errors[i].kind),
+                    case,
+                    format!(
+                        "`{}`: error {} of {} that the library reports for the same files is not printed:\n{}\n{}",
+                        cmdline,
+                        i + 1,
+                        errors.len(),
+                        rendered[i],
+                        streams(&r)
+                    ),
+                );
+            }
+            labels.add(format!("errors-on:{}", stream_name));
+            if in_order(stream, &rendered) {
+                labels.add("errors-in-library-order");
+            }
+            let want: usize = rendered.iter().map(|x| header_lines(x)).sum();
+            let got = header_lines(&both);
+            if got != want {
+                return viol(
+                    "C20/errors/count",
+                    case,
+                    format!("`{}` prints {} error headers, the library reports {} error(s) ({} header lines)\n{}", cmdline, got, errors.len(), want, streams(&r)),
+                );
+            }
+            // nothing of the Lua program may reach stdout when compilation fails (`-o -` streams)
+            let probe = &e.preamble[..e.preamble.len().min(48)];
+            if count(&r.stdout, probe) > 0 || count(&r.stdout, b"-- End Sylt preamble") > 0 {
+                return viol("C20/stdout-mode/lua-on-failure", case, format!("`{}`: compilation fails but (part of) the Lua program was written to stdout\n{}", cmdline, streams(&r)));
+            }
+        }
+
+        // ---- run mode: the program's output and its run-time error are shown -----------------------------
+        if case.mode == Mode::Run {
+            if let Some(LuaRes::Term(term, lines)) = &lib_run {
+                let ls: Vec<&str> = lines.iter().map(|s| s.as_str()).collect();
+                if !in_order(&so, &ls) {
+                    return viol("C20/run/output-missing", case, format!("`{}`: the program's output {:?} is not on stdout\n{}", cmdline, cut(&lines.join("\\n"), 300), streams(&r)));
+                }
+                let both = format!("{}\n{}", so, se);
+                let needle: Option<String> = match term {
+                    Terminal::AssertFailed => Some("Assert failed!".into()),
+                    Terminal::Unreachable(n) => Some(format!("Reached unreachable code on line {}", n)),
+                    Terminal::LuaError { msg, .. } => Some(msg.clone()),
+                    _ => None,
+                };
+                if let Some(n) = needle {
+                    if !both.contains(&n) {
+                        return viol("C20/run/error-not-printed", case, format!("`{}`: the run-time error ({}) is not printed\n{}", cmdline, cut(&n, 200), streams(&r)));
+                    }
+                    labels.add("run-error-printed");
+                }
+            }
+        }
+
+        // ---- clause 3 / 7: the output file ---------------------------------------------------------------
+        let mut main_output: Option<Vec<u8>> = None; // bytes the main invocation produced (file or stdout)
+        match case.mode {
+            Mode::OutNew | Mode::OutExisting => {
+                let t = target.as_ref().unwrap();
+                let now = std::fs::read(t).ok();
+                if r.ok() {
+                    match (&now, lib_bytes) {
+                        (None, _) => return viol("C20/output-file/missing-after-success", case, format!("`{}` exited with 0 but {} does not exist", cmdline, t.display())),
+                        (Some(b), Some(l)) => {
+                            if b.as_slice() != l {
+                                return viol(
+                                    "C20/output-file/differs-from-library",
+                                    case,
+                                    format!("`{}`: the file has {} bytes, the library emits {} bytes for the same files and flags; {}", cmdline, b.len(), l.len(), first_diff(b, l)),
+                                );
+                            }
+                            main_output = Some(b.clone());
+                        }
+                        _ => {}
+                    }
+                } else {
+                    let was: Option<&[u8]> = if case.mode == Mode::OutExisting { Some(previous.as_bytes()) } else { None };
+                    if now.as_deref() != was {
+                        let how = match (&now, was) {
+                            (Some(_), None) => "created",
+                            (None, Some(_)) => "removed",
+                            _ => "modified",
+                        };
+                        return viol(
+                            format!("C20/output-file/touched-on-failure/{}", how),
+                            case,
+                            format!("`{}` failed ({}) but the output file was {}: now {:?} bytes, before {:?} bytes\n{}", cmdline, r.status(), how, now.as_ref().map(|b| b.len()), was.map(|b| b.len()), streams(&r)),
+                        );
+                    }
+                }
+            }
+            Mode::OutMissingDir => {
+                let t = target.as_ref().unwrap();
+                if r.ok() {
+                    // a driver that creates the directory: then all-or-nothing demands the complete program
+                    if std::fs::read(t).ok().as_deref() != lib_bytes {
+                        return viol("C20/output-file/differs-from-library", case, format!("`{}` exited with 0 but {} does not hold the complete program", cmdline, t.display()));
+                    }
+                    labels.add("missing-dir-created");
+                } else if missing.exists() {
+                    return viol("C20/unwritable/something-written", case, format!("`{}` failed ({}) but {} was created", cmdline, r.status(), missing.display()));
+                }
+            }
+            Mode::Stdout => {
+                if r.ok() {
+                    if let Some(l) = lib_bytes {
+                        main_output = Some(r.stdout.clone());
+                        // also against the library (the `-o FILE` twin below is the property's own wording)
+                        if r.stdout.as_slice() != l {
+                            labels.add("stdout-differs-from-library");
+                        }
+                    }
+                }
+            }
+            _ => {}
+        }
+
+        let accepted = lib_bytes.is_some();
+        // ---- clause 4: `-o -` == `-o FILE` -----------------------------------------------------------------
+        if case.mode == Mode::Stdout && accepted {
+            let twin = outd.join("twin-file.lua");
+            let a = build_args(&proj.main, Some(&twin.to_string_lossy()), req, case.no_std, case.order, case.long_flags);
+            let r2 = run!(&a);
+            if r2.ok() != r.ok() {
+                return viol("C20/stdout-mode/status-differs-from-file", case, format!("`{}`: {}; `sylt {}`: {}", cmdline, r.status(), a.join(" "), r2.status()));
+            }
+            if r2.ok() {
+                let fb = std::fs::read(&twin).unwrap_or_default();
+                if fb != r.stdout {
+                    return viol(
+                        "C20/stdout-mode/differs-from-file",
+                        case,
+                        format!("`{}` wrote {} bytes to stdout, `sylt {}` wrote {} bytes to the file; {}", cmdline, r.stdout.len(), a.join(" "), fb.len(), first_diff(&r.stdout, &fb)),
+                    );
+                }
+                labels.add("clause4-compared");
+            }
+        }
+
+        // ---- clause 5: `--require M` = flag-less output + exactly one require after the preamble ----------------
+        if let (Some(m), Some(with), true) = (req, main_output.as_ref(), accepted) {
+            let (a, twin) = if case.mode == Mode::Stdout {
+                (build_args(&proj.main, Some("-"), None, case.no_std, case.order, case.long_flags), None)
+            } else {
+                let tw = outd.join("twin-norequire.lua");
+                (build_args(&proj.main, Some(&tw.to_string_lossy()), None, case.no_std, case.order, case.long_flags), Some(tw))
+            };
+            let r3 = run!(&a);
+            if !r3.ok() {
+                return viol("C20/require/acceptance-differs", case, format!("`{}` succeeds, `sylt {}` (same without --require): {}\n{}", cmdline, a.join(" "), r3.status(), streams(&r3)));
+            }
+            let without: Vec<u8> = match &twin {
+                Some(p) => std::fs::read(p).unwrap_or_default(),
+                None => r3.stdout.clone(),
+            };
+            let pre = &e.preamble;
+            if !without.starts_with(pre) {
+                return Verdict::Discard("preamble-file-is-not-the-emitted-prefix".into());
+            }
+            let module = m.strip_suffix(".lua").unwrap_or(m);
+            let needle = format!("require \"{}\"", module);
+            let (cw, co) = (count(with, needle.as_bytes()), count(&without, needle.as_bytes()));
+            let loose_w = count(with, b"require \"") + count(with, b"require(") + count(with, b"require '");
+            let loose_o = count(&without, b"require \"") + count(&without, b"require(") + count(&without, b"require '");
+            if cw != co + 1 || loose_w != loose_o + 1 {
+                return viol(
+                    "C20/require/count",
+                    case,
+                    format!("`{}`: `{}` occurs {} time(s) in the output ({} without the flag); require statements of any module: {} vs {}", cmdline, needle, cw, co, loose_w, loose_o),
+                );
+            }
+            if !with.starts_with(pre) {
+                return viol("C20/require/not-after-preamble", case, format!("`{}`: the output does not start with the runtime preamble any more; {}", cmdline, first_diff(with, pre)));
+            }
+            let rest = &with[pre.len()..];
+            let ws = |b: &[u8]| b.iter().take_while(|c| c.is_ascii_whitespace()).count();
+            let rest_t = &rest[ws(rest)..];
+            if !rest_t.starts_with(needle.as_bytes()) {
+                return viol(
+                    "C20/require/not-after-preamble",
+                    case,
+                    format!("`{}`: the text right after the preamble is {:?}, expected `{}`", cmdline, cut(&String::from_utf8_lossy(&rest_t[..rest_t.len().min(80)]), 80), needle),
+                );
+            }
+            let after = &rest_t[needle.len()..];
+            let after_t = {
+                let n = after.iter().take_while(|c| c.is_ascii_whitespace() || **c == b';').count();
+                &after[n..]
+            };
+            let orig = &without[pre.len()..];
+            if after != orig && after_t != &orig[ws(orig)..] {
+                return viol("C20/require/rest-differs", case, format!("`{}`: removing the require statement does not give the output without the flag; {}", cmdline, first_diff(after, orig)));
+            }
+            labels.add("clause5-compared");
+        }
+
+        // ---- clause 6: `--no-std` changes nothing for std-free programs -------------------------------------------
+        if std_free && !case.mode.unwritable() {
+            let twin = outd.join("twin-stdtoggle.lua");
+            let o: Option<String> = match case.mode {
+                Mode::Run => None,
+                Mode::Stdout => Some("-".into()),
+                _ => Some(twin.to_string_lossy().to_string()),
+            };
+            let a = build_args(&proj.main, o.as_deref(), req, !case.no_std, case.order, case.long_flags);
+            let r4 = run!(&a);
+            if r4.ok() != r.ok() {
+                return viol(
+                    format!("C20/no-std/acceptance-differs/{}", case.mode.kind()),
+                    case,
+                    format!("std-free program: `{}`: {}; `sylt {}`: {}\n{}\n=== twin\n{}", cmdline, r.status(), a.join(" "), r4.status(), streams(&r), streams(&r4)),
+                );
+            }
+            if r.ok() && case.mode != Mode::Run {
+                let other: Vec<u8> = if case.mode == Mode::Stdout { r4.stdout.clone() } else { std::fs::read(&twin).unwrap_or_default() };
+                if let Some(mine) = &main_output {
+                    let (x, y) = (lua_of(mine), lua_of(&other));
+                    let same = match (&x, &y) {
+                        (LuaRes::Term(a, la), LuaRes::Term(b, lb)) => term_name(a) == term_name(b) && la == lb,
+                        (LuaRes::Load(_), LuaRes::Load(_)) => true,
+                        _ => false,
+                    };
+                    if !same {
+                        return viol(
+                            "C20/no-std/run-outcome-differs",
+                            case,
+                            format!("std-free program: running the output of `{}` ends {}, running the output of `sylt {}` ends {}", cmdline, lua_class(&x), a.join(" "), lua_class(&y)),
+                        );
+                    }
+                }
+            }
+            if case.mode == Mode::Run {
+                // std-free programs print nothing themselves; on failure both must name the same failure
+                let kind = |r: &RunOut| -> &'static str {
+                    let t = format!("{}{}", String::from_utf8_lossy(&r.stdout), String::from_utf8_lossy(&r.stderr));
+                    if header_lines(&t) > 0 {
+                        "compile-error"
+                    } else if t.contains("Assert failed!") {
+                        "assert"
+                    } else if t.contains("Reached unreachable code") {
+                        "unreachable"
+                    } else if r.ok() {
+                        "ok"
+                    } else {
+                        "other"
+                    }
+                };
+                if kind(&r) != kind(&r4) {
+                    return viol(
+                        "C20/no-std/run-outcome-differs",
+                        case,
+                        format!("std-free program: `{}` ends with {}, `sylt {}` ends with {}\n{}\n=== twin\n{}", cmdline, kind(&r), a.join(" "), kind(&r4), streams(&r), streams(&r4)),
+                    );
+                }
+            }
+            labels.add("clause6-compared");
+        }
+
+        let flags = (case.mode != Mode::Run) as u32 + case.require.is_some() as u32 + case.no_std as u32;
+        let failing = label_class == "rejected" || label_class == "runtime-fail" || (case.mode == Mode::Run && lib_class != "accepted-ok");
+        Verdict::Pass { nontrivial: flags >= 2 || failing || case.mode.unwritable() }
+    }
+}
+
+fn first_diff(a: &[u8], b: &[u8]) -> String {
+    let n = a.iter().zip(b.iter()).take_while(|(x, y)| x == y).count();
+    let show = |s: &[u8]| {
+        let lo = n.saturating_sub(30);
+        let hi = (n + 50).min(s.len());
+        if lo >= hi {
+            String::from("<end>")
+        } else {
+            format!("{:?}", String::from_utf8_lossy(&s[lo..hi]))
+        }
+    };
+    format!("first difference at byte {}: {} vs {}", n, show(a), show(b))
+}
+
+impl Check for C20 {
+    type Case = Case;
     fn id(&self) -> &'static str {
         "C20"
     }
-    fn generate(&self, _u: &mut Unstructured, _tier: Tier) -> Option<u8> {
-        None
+
+    fn generate(&self, u: &mut Unstructured, _tier: Tier) -> Option<Case> {
+        let mut t = Tape::new(u);
+        let class = ["accepted", "rejected", "runtime"][t.weighted(&[40, 35, 25])];
+        let uses_std = t.chance(2, 5);
+        let mode = [Mode::OutNew, Mode::Stdout, Mode::Run, Mode::OutExisting, Mode::OutMissingDir, Mode::OutParentIsFile, Mode::OutIsDir][t.weighted(&[22, 18, 25, 15, 7, 7, 6])];
+        // in run mode a required module can never be found (no such file; mini-Lua has no file system), so the
+        // flag turns every accepted program into a run-time failure there: keep that combination, but rarer
+        let require = match t.weighted(if mode == Mode::Run { &[70, 15, 15] } else { &[40, 30, 30] }) {
+            0 => None,
+            1 => Some(t.pick(REQUIRE_NAMES).to_string()),
+            _ => Some(format!("{}.lua", t.pick(REQUIRE_NAMES))),
+        };
+        let no_std = t.chance(2, 5);
+        let order = t.below(3) as u8;
+        let long_flags = t.bool();
+        let prev_big = t.bool();
+        let rel_out = t.chance(1, 3);
+        let files = gen_program(&mut t, class, uses_std);
+        Some(Case { files, class: class.to_string(), uses_std, mode, require, no_std, order, long_flags, prev_big, rel_out })
     }
-    fn evaluate(&self, _case: &u8, _labels: &mut Labels) -> Verdict {
-        Verdict::Discard("stub".into())
+
+    fn evaluate(&self, case: &Case, labels: &mut Labels) -> Verdict {
+        let e = match env() {
+            Ok(e) => e,
+            Err(reason) => return Verdict::Discard(reason.clone()),
+        };
+        let n = COUNTER.fetch_add(1, Ordering::Relaxed);
+        let dir = std::env::temp_dir().join(format!("verif-c20-{}-{}", std::process::id(), n));
+        let _ = std::fs::remove_dir_all(&dir);
+        let v = self.eval_in(case, labels, &dir, e);
+        let _ = std::fs::remove_dir_all(&dir);
+        v
     }
+
+    fn simplify_at(&self, case: &Case, idx: usize) -> Step<Case> {
+        let mut c = case.clone();
+        match idx {
+            0 => {
+                if c.require.is_none() {
+                    return Step::Skip;
+                }
+                c.require = None;
+            }
+            1 => match &c.require {
+                Some(r) if r.ends_with(".lua") => c.require = Some(r.trim_end_matches(".lua").to_string()),
+                _ => return Step::Skip,
+            },
+            2 => {
+                if !c.no_std {
+                    return Step::Skip;
+                }
+                c.no_std = false;
+            }
+            3 => {
+                if c.order == 0 {
+                    return Step::Skip;
+                }
+                c.order = 0;
+            }
+            4 => {
+                if !c.long_flags {
+                    return Step::Skip;
+                }
+                c.long_flags = false;
+            }
+            5 => {
+                if !c.prev_big && !c.rel_out {
+                    return Step::Skip;
+                }
+                c.prev_big = false;
+                c.rel_out = false;
+            }
+            6 => {
+                if c.mode != Mode::OutExisting {
+                    return Step::Skip;
+                }
+                c.mode = Mode::OutNew;
+            }
+            7 => {
+                let min = minimal_program(&c.class, c.uses_std);
+                if c.files.len() == 1 && c.files.get("/p/main.sy") == Some(&min) {
+                    return Step::Skip;
+                }
+                c.files.clear();
+                c.files.insert("/p/main.sy".into(), min);
+            }
+            8 => {
+                if c.files.len() < 2 {
+                    return Step::Skip;
+                }
+                c.files.remove("/p/aux.sy");
+                let main: Vec<&str> = case.files["/p/main.sy"].lines().filter(|l| !l.contains("aux")).collect();
+                c.files.insert("/p/main.sy".into(), main.join("\n") + "\n");
+            }
+            _ => {
+                // remove one line (with its more-indented block and closing `end`) of a file
+                let mut k = idx - 9;
+                for (name, src) in &case.files {
+                    let lines: Vec<&str> = src.lines().collect();
+                    if k < lines.len() {
+                        let i = k;
+                        let ind = |l: &str| l.chars().take_while(|c| *c == ' ').count();
+                        let mut j = i + 1;
+                        while j < lines.len() && ind(lines[j]) > ind(lines[i]) {
+                            j += 1;
+                        }
+                        if j > i + 1 && j < lines.len() && lines[j].trim() == "end" && ind(lines[j]) == ind(lines[i]) {
+                            j += 1;
+                        }
+                        if lines[i].starts_with("start ::") {
+                            return Step::Skip;
+                        }
+                        let mut out: Vec<&str> = lines[..i].to_vec();
+                        out.extend_from_slice(&lines[j..]);
+                        c.files.insert(name.clone(), out.join("\n") + "\n");
+                        return Step::Candidate(c);
+                    }
+                    k -= lines.len();
+                }
+                return Step::End;
+            }
+        }
+        Step::Candidate(c)
+    }
+
+    fn sample(&self, case: &Case) -> serde_json::Value {
+        vcore::truncate_value(
+            serde_json::json!({
+                "class": case.class, "uses_std": case.uses_std, "mode": case.mode.name(), "require": case.require,
+                "no_std": case.no_std, "order": case.order, "long_flags": case.long_flags, "rel_out": case.rel_out, "files": case.files,
+            }),
+            1200,
+        )
+    }
+
     fn rule(&self) -> String {
-        "stub".into()
+        "case = configuration tuple decoded from the tape: program class (accepted | rejected by 1-3 planted syntax/name/type \
+         errors in `start`, a helper function or a second file | accepted but failing at run time through a false `<=>` or a \
+         reached `<!>`, directly, in a branch or in a called function) x uses-std (print/as_str) or std-free x mode (`-o FILE` \
+         new / existing with short or 64 KiB previous content / in a missing directory / below a regular file / naming a \
+         directory; `-o -`; run mode) x `--require` (absent, plain, with .lua suffix) x `--no-std` x flag position (before, \
+         after, around the file) x short/long flag spelling. The real `sylt` binary runs in a private temp dir (NO_COLOR, \
+         stdin null, mini-Lua `lua` first on PATH, 20 s timeout => discard). Oracle, differential against the library \
+         (`tree`+`compile`) on the same materialised files: (1) exit status 0 <=> library accepts (run mode: and mini-Lua runs \
+         the library's bytes to Ok); truly unwritable path => non-zero; (2) every error the library returns is printed \
+         (rendering is a substring of the output, disjoint occurrences), number of error headers equal, no Lua on stdout when \
+         compilation fails; run mode: program output on stdout, run-time error text printed; (3) `-o FILE` after success: file \
+         byte-identical to the library's output; after failure: file absent / previous content; (4) `-o -` stdout == bytes \
+         of an `-o FILE` twin run; (5) `--require M`: output starts with preamble.lua (read at run time), then exactly one \
+         `require \"M\"` (no .lua), rest identical to a twin run without the flag; (6) std-free programs: a twin run with \
+         `--no-std` toggled has the same exit status and (mini-Lua) the same run outcome; (7) unwritable path: nothing created \
+         or changed at/under it. Silent where the property is silent (--help, no file, -v, --dump-tree, stdout content on \
+         success in file mode, wording of failures). non-trivial = at least two of {-o, --require, --no-std} given, or a \
+         failing program, or an unwritable path; distinct by hash of the case"
+            .into()
     }
-    fn health(&self, _s: &vcore::Stats) -> Result<(), String> {
-        Err("check not built yet".into())
+
+    fn assumptions(&self) -> Vec<String> {
+        vec![
+            "run mode is observed with the harness's mini-Lua CLI standing in for `lua` (reads the chunk from stdin, prints run-time errors to stderr, exit 1); `require` never finds a module there, as with real Lua in a directory without that module".into(),
+            "`--require NAME.lua` must produce `require \"NAME\"` (the flag's help text calls the argument a Lua file; Lua's require takes the module name)".into(),
+            "an output path in a directory that does not exist counts as unwritable only if the driver does not create it: exit 0 with the complete file is accepted there".into(),
+            "std-free = built only from <=>, <!>, arithmetic, comparisons, control flow, own functions and a second user file".into(),
+        ]
+    }
+
+    fn health(&self, s: &Stats) -> Result<(), String> {
+        for d in ["infra:sylt-binary-missing", "infra:lua-binary-missing", "infra:preamble-unreadable"] {
+            if s.discard(d) > 0 {
+                return Err(format!(
+                    "{}: the real `sylt` binary ({} or $SYLT_BIN) and the mini-Lua `lua` (in {} or $SYLT_LUA_DIR) must exist; run this check through `/verif/check C20 <tier>`, which builds both",
+                    d, DEFAULT_SYLT_BIN, DEFAULT_LUA_DIR
+                ));
+            }
+        }
+        if s.evaluations < 200 {
+            return Ok(());
+        }
+        let disc: u64 = s.discards.values().sum();
+        if disc * 10 > s.evaluations {
+            return Err(format!("{} of {} cases discarded: {:?}", disc, s.evaluations, s.discards));
+        }
+        let need = [
+            ("lib:accepted-ok", 0.12),
+            ("lib:rejected", 0.15),
+            ("lib:runtime-fail", 0.08),
+            ("errors:>=2", 0.02),
+            ("mode:file-new", 0.08),
+            ("mode:file-existing", 0.05),
+            ("mode:stdout", 0.08),
+            ("mode:run", 0.10),
+            ("mode:unwritable-missing-dir", 0.02),
+            ("mode:unwritable-parent-is-file", 0.02),
+            ("mode:unwritable-is-directory", 0.02),
+            ("require:plain", 0.08),
+            ("require:suffix", 0.08),
+            ("no-std", 0.15),
+            ("std-free", 0.25),
+            ("uses-std", 0.15),
+            ("clause4-compared", 0.03),
+            ("clause5-compared", 0.03),
+            ("clause6-compared", 0.15),
+            ("run-error-printed", 0.02),
+            ("hint-agrees", 0.85),
+        ];
+        for (l, f) in need {
+            if s.label_frac(l) < f {
+                return Err(format!("class '{}' covers only {:.1}% of the cases (need {:.0}%)", l, s.label_frac(l) * 100.0, f * 100.0));
+            }
+        }
+        if (s.nontrivial as f64) < 0.5 * s.evaluations as f64 {
+            return Err(format!("only {} of {} cases are non-trivial", s.nontrivial, s.evaluations));
+        }
+        Ok(())
     }
 }
